@@ -160,8 +160,14 @@ impl BaseBandModulationParams {
             1
         };
 
+        // ceil(num / denom) for denom > 0; anything <= 0 is clamped to 0 below, which also
+        // avoids `(num - 1) / denom + 1` rounding numerators in (-denom, 0] up to 1
         const fn div_ceil(num: i32, denom: i32) -> i32 {
-            (num - 1) / denom + 1
+            if num <= 0 {
+                0
+            } else {
+                (num - 1) / denom + 1
+            }
         }
 
         let big_ratio = div_ceil(8 * len as i32 - 4 * sf + 28 + 16 - 20 * h, 4 * (sf - 2 * de));
